@@ -1443,3 +1443,39 @@ def bitsfield(repo):
                 "field wider than 64 bits (`0 [+9] bits:`): the header fails the runtime's static_assert", m.rel, f.node.lineno, f.name)
     res.analysed = [m.rel]
     return res
+
+
+def negloc(repo, schema=None, sites=None):
+    """R-NEGLOC (C14/C07): a constant field start is pasted into `std::size_t` template arguments by the back end
+    (OffsetStorageType<align, offset>), and a size can never be negative.  constraints.check_constraints must therefore
+    have a traversal action over Field that tests the *upper bound* of `location.start` and `location.size`
+    (`int(<maximum_value>) < 0`) and appends an error."""
+    from . import traversal as T
+    res = RuleResult("R-NEGLOC")
+    schema = schema or Schema(repo)
+    sites = sites if sites is not None else T.collect_sites(repo, schema)
+    found = {"start": False, "size": False}
+    for s in sites:
+        if s.pattern is None or not isinstance(s.action, Func) or not s.module.rel.endswith("front_end/constraints.py"):
+            continue
+        if s.pattern[-1] != "Field":
+            continue
+        f = s.action
+        src = ast.unparse(f.node)
+        if "maximum_value" not in src or "errors.append" not in src:
+            continue
+        neg = any(isinstance(n, ast.Compare) and len(n.ops) == 1 and isinstance(n.ops[0], ast.Lt)
+                  and isinstance(n.comparators[0], ast.Constant) and n.comparators[0].value == 0 for n in ast.walk(f.node))
+        if not neg:
+            continue
+        for k in found:
+            if f"location.{k}" in src:
+                found[k] = True
+    res.instances = 2
+    for k, ok in found.items():
+        if not ok:
+            res.add(f"compiler/front_end/constraints.py|check_constraints|negative-{k}", f"no Field check of constraints.check_constraints "
+                    f"rejects a location whose {k} is always negative (`-1 [+1] UInt y` / `1 [+-1] ...`): the module is accepted and the "
+                    "header does not compile", "compiler/front_end/constraints.py", 0, "check_constraints")
+    res.analysed = ["compiler/front_end/constraints.py"]
+    return res
